@@ -73,7 +73,7 @@ Print Assumptions C14_response_head.
 
 (* keep-alive: for every number of requests on one connection and every interleaving of their
    steps (and of hyper's connection task) under the mutex, a request is only ever handed the
-   response that answers it -- for the pinned code ([w = false]) and the repaired code alike *)
+   response that answers it ([w = true]: the code as it is; [w = false]: before fix cdcae0b) *)
 Theorem C14_fifo :
   forall (w : bool) (sched : list actor) (t r : nat),
   delivered (crun true w cinit sched) t = Some r -> r = t.
@@ -96,37 +96,38 @@ Theorem C14_mutex_exclusive :
 Proof. exact mutex_exclusive. Qed.
 Print Assumptions C14_mutex_exclusive.
 
-(* "each response going to the request that caused it" also needs every request to be relayed.
-   FINDING F12 (known_findings.d/C14.json): the pinned code calls hyper's
-   SendRequest::send_request without waiting for SendRequest::ready; a request that arrives
-   before the connection task has signalled readiness after the previous exchange is answered
-   503 by the proxy and never reaches the host.  The faithful model refutes the full statement: *)
-Theorem C14_every_request_relayed_refuted :
+(* "each response going to the request that caused it" also needs every request to be relayed:
+   under every schedule no request is failed for lack of readiness of the upstream connection
+   (Client::send_request awaits SendRequest::ready() before send_request) *)
+Theorem C14_every_request_relayed :
+  forall (sched : list actor) (t : nat), pcs (crun true true cinit sched) t <> PFailed.
+Proof. exact no_spurious_failure. Qed.
+Print Assumptions C14_every_request_relayed.
+
+(* FINDING F12, repaired by fix commit cdcae0b (known_findings.d/C14.json, status fixed).  The
+   code before the fix called send_request without waiting for ready(): a request dispatched
+   before the connection task had signalled readiness after the previous exchange was answered
+   503 by the proxy and never reached the host.  Kept for the record: the model of that code
+   refutes the statement above ... *)
+Theorem C14_every_request_relayed_before_fix_refuted :
   exists (sched : list actor) (t : nat),
     pcs (crun true false cinit sched) t = PFailed /\ ~ In t (upwire (crun true false cinit sched)).
 Proof. exact spurious_failure_refuted. Qed.
-Print Assumptions C14_every_request_relayed_refuted.
+Print Assumptions C14_every_request_relayed_before_fix_refuted.
 
-(* the strongest true statement for the pinned code: outside the class of schedules in which a
-   send_request overtakes the readiness signal, no request is failed *)
-Theorem C14_every_request_relayed_partial :
+(* ... and satisfies it only outside the class of schedules in which a send_request overtakes
+   the readiness signal *)
+Theorem C14_every_request_relayed_before_fix_partial :
   forall (sched : list actor) (t : nat),
   KnownClass_C14_send_before_ready sched = false ->
   pcs (crun true false cinit sched) t <> PFailed.
 Proof. exact no_spurious_failure_partial. Qed.
-Print Assumptions C14_every_request_relayed_partial.
-
-(* and for the repaired code (patches/fix-C14-wait-upstream-ready.diff: `sender.ready().await`
-   before `send_request`) the full statement: under every schedule no request is failed *)
-Theorem C14_every_request_relayed_fixed :
-  forall (sched : list actor) (t : nat), pcs (crun true true cinit sched) t <> PFailed.
-Proof. exact no_spurious_failure. Qed.
-Print Assumptions C14_every_request_relayed_fixed.
+Print Assumptions C14_every_request_relayed_before_fix_partial.
 
 (* non-vacuity and contrasts:
    - a 3-request interleaving with lock contention completes with every request paired with
-     its own response; the refuting schedule completes under the repaired code;
-   - the known class is inhabited by a schedule that does fail a request;
+     its own response; the schedule that failed request 1 before the fix now completes;
+   - the class of the repaired finding is inhabited by a schedule that did fail a request;
    - without the mutex a second request issued while the first is in flight is failed by
      hyper's dispatcher, with it the request waits;
    - the byte mapper is the identity on a frame holding 0x00, 0x7f, 0x80, 0xff, while the same
